@@ -610,6 +610,23 @@ func init() {
 					return core.Disagree("the model of checkConsistency rejects the project the loader returned: " + string(d.Model))
 				}
 			case "err":
+				if f := os.Getenv("C10_EDITLOG"); f != "" && a.Expect == "invalid" {
+					// development aid: which error rejects which edit (negative cases must fail for the intended reason)
+					if fh, err := os.OpenFile(f, os.O_APPEND|os.O_CREATE|os.O_WRONLY, 0o644); err == nil {
+						fmt.Fprintf(fh, "%s@%s\t%s\n", a.Rule, a.Placement, real)
+						fh.Close()
+					}
+				}
+				if a.Expect == "invalid" {
+					// a negative case must be rejected by a consistency / structural rule, not by an accident of the generator
+					var e struct {
+						Err string `json:"err"`
+					}
+					json.Unmarshal(real, &e)
+					if strings.HasPrefix(c10Class(fmt.Errorf("%s", e.Err)), "other:") && strings.HasPrefix(validateClass(fmt.Errorf("%s", e.Err)), "other:") {
+						return core.Disagree("negative case " + a.Rule + "@" + a.Placement + " is rejected for an unrelated reason: " + e.Err)
+					}
+				}
 				if a.Expect == "valid" {
 					var e struct {
 						Err string `json:"err"`
